@@ -179,6 +179,11 @@ func toleranceOf(cmd string, pver uint32, payload []byte) string {
 	return ""
 }
 
+// knownObs is the (deliberately constant) observation printed with a
+// KNOWN-FINDING line, so that the driver prints one line per signature; the
+// concrete inputs are in the evidence samples of [lenient-decodes].
+const knownObs = "payload decodes without error through ReadMessageWithEncodingN but WriteMessageWithEncodingN of the decoded message produces different bytes"
+
 var toleranceSigs = []string{"version-optional-fields-omitted", "version-relay-byte-before-bip37", "version-relay-byte-not-0-or-1",
 	"addrv2-i2p-cjdns-entry-dropped", "addrv2-ipv6-embedded-v4-or-onioncat-entry-dropped", "addrv2-unknown-netid-entry-dropped"}
 
@@ -250,7 +255,7 @@ func probeMessage(t TB, rec *ev.Rec, stream []byte, pver uint32, net wire.Bitcoi
 	}
 	if sig := toleranceOf(cmd, pver, payload); sig != "" {
 		obs := fmt.Sprintf("%s payload %s decodes without error but re-encodes (err=%v) to %s", cmd, hexShort(payload), werr, hexShort(w.Bytes()[min(w.Len(), wirefmt.HeaderLen):]))
-		if rec.Known(sig, obs) {
+		if rec.Known(sig, knownObs) {
 			rec.Excluded()
 			return nil
 		}
@@ -281,7 +286,7 @@ func probeDirect(t TB, rec *ev.Rec, kind string, payload []byte, pver uint32, en
 	used := payload[:len(payload)-rb.Len()]
 	var w bytes.Buffer
 	if err := msg.BtcEncode(&w, pver, enc); err != nil || !bytes.Equal(w.Bytes(), used) {
-		if sig := toleranceOf(kind, pver, used); sig != "" && rec.Known(sig, "direct BtcDecode of "+hexShort(used)) {
+		if sig := toleranceOf(kind, pver, used); sig != "" && rec.Known(sig, knownObs) {
 			rec.Excluded()
 			return nil
 		}
